@@ -18,9 +18,11 @@ import (
 
 // NStep is one environment action of a renewal scenario: advance the fake clock by D ns, or (D == 0)
 // switch the trust-anchor bundle to version Anch.
+// W: advance exactly to the deadline of the armed timer (no overshoot).
 type NStep struct {
 	D    int64 `json:"d,omitempty"`
 	Anch int   `json:"anch,omitempty"`
+	W    bool  `json:"w,omitempty"`
 }
 
 type NScenario struct {
@@ -50,7 +52,10 @@ type nOutcome struct {
 	Pub      []pubObs // observations at step ends (index-aligned with Served) when Dir
 	PubAtReq []pubObs // observations at request arrivals
 	StepEnd  []time.Time
-	InitErr  bool
+	// Overshoot[j]: how far step j ended beyond the deadline of the timer that was armed before it
+	// (capped by the step's length; 0 for a step that fired nothing or landed exactly).
+	Overshoot []time.Duration
+	InitErr   bool
 	Hang     string
 	Panic    string
 	RunRet   string
@@ -244,16 +249,36 @@ func runRenew(sc NScenario, ca *fakeCA, workdir string, deadline time.Duration) 
 		if out.Hang != "" {
 			break
 		}
-		if st.D == 0 {
+		d := time.Duration(st.D)
+		dl, armed := clk.NextDeadline()
+		if st.W {
+			d = 0
+			if armed && !returned {
+				d = dl.Sub(clk.Now())
+			}
+		}
+		over := time.Duration(0)
+		if armed && d > 0 {
+			if o := clk.Now().Add(d).Sub(dl); o > 0 {
+				over = o
+			}
+			if over > d {
+				over = d
+			}
+		}
+		out.Overshoot = append(out.Overshoot, over)
+		if !st.W && st.D == 0 {
 			ta.set(st.Anch)
+		} else if d <= 0 {
+			// nothing armed: the clock stays
 		} else if !returned {
-			if fired := clk.Step(time.Duration(st.D)); fired > 0 {
+			if fired := clk.Step(d); fired > 0 {
 				if !quiesce() {
 					out.Hang = "rotation loop did not arm its next timer after step " + strconv.Itoa(j+1)
 				}
 			}
 		} else {
-			clk.Step(time.Duration(st.D))
+			clk.Step(d)
 		}
 		observe(j + 1)
 	}
@@ -325,7 +350,9 @@ func modelLine(sc NScenario, o nOutcome) string {
 		}
 	}
 	for _, st := range sc.Steps {
-		if st.D == 0 {
+		if st.W {
+			steps = append(steps, "w")
+		} else if st.D == 0 {
 			steps = append(steps, "t:"+strconv.Itoa(st.Anch))
 		} else {
 			steps = append(steps, "a:"+strconv.FormatInt(st.D, 10))
